@@ -296,6 +296,14 @@ func (g *Gen) genC03() {
 		if r.P(20) {
 			s = r.RandBytes("", 1, 6)
 		}
+		if len(b) < len(text) && r.P(30) {
+			// the bytes that really follow in the generated text (all of them, or only the next few): a verdict given on
+			// a prefix that ends inside a multi-byte unit (line end, escape, UTF-8 sequence, number) must survive them
+			s = text[len(b):]
+			if r.P(50) {
+				s = s[:1+r.N(min(len(s), 4))]
+			}
+		}
 		g.add(stableCase("C03", hd, b, s, 0, flags, kind))
 		// directed: a token parameter (list) whose prefix ends right after a value and some white space, in every
 		// terminator mode (space-terminated lists included): nothing definitive may be said before the next byte
@@ -736,6 +744,12 @@ func (g *Gen) genC13() {
 			text := val + r.EOL() + "X"
 			cuts := r.Cuts(text, len(text))
 			body := parseSess("", text, 0, cuts, 0, false, "O")
+			if r.P(25) {
+				h := r.genValue(8, false, "", nil)
+				if len(h) > 0 {
+					body = fmt.Sprintf(" | B %s | P %d 0 0 | R", hx(h), 1+r.N(len(h))) + body
+				}
+			}
 			g.add(capCase("C13", []string{"contacts 0", "contacts 1", "contacts 2", "contacts 3", "contacts 9"}, body, "contacts-caps", false))
 		case 7: // header block
 			ms := r.Msg(MsgOpts{LWS: r.P(50), Body: 0, CLen: -2, Reply: 0})
@@ -767,7 +781,14 @@ func (g *Gen) genC13() {
 				fmt.Fprintf(&sb, " | P %d %s %d", c, o, f)
 			}
 			sb.WriteString(" | O")
-			g.add(capCase("C13", []string{"uriparams 0", "uriparams 1", "uriparams 2", "uriparams 4", "uriparams 12"}, sb.String(), "uriparams-caps", false))
+			body := sb.String()
+			if r.P(25) { // the same list object used before: a parse abandoned wherever it stopped, then Reset
+				h := g.paramListText(";", false) + r.Pick("", ";", "=", "=\"q")
+				if len(h) > 0 {
+					body = fmt.Sprintf(" | B %s | P %d 0 %d | R", hx(h), 1+r.N(len(h)), f0) + body
+				}
+			}
+			g.add(capCase("C13", []string{"uriparams 0", "uriparams 1", "uriparams 2", "uriparams 4", "uriparams 12"}, body, "uriparams-caps", false))
 		default:
 			lst := g.paramListText("&", r.P(40))
 			fl := []int{128, 128 | 8, 8, 0}[r.N(4)]
@@ -787,7 +808,14 @@ func (g *Gen) genC13() {
 				fmt.Fprintf(&sb, " | P %d %s %d", c, o, f)
 			}
 			sb.WriteString(" | O")
-			g.add(capCase("C13", []string{"urihdrs 0", "urihdrs 1", "urihdrs 2", "urihdrs 4", "urihdrs 12"}, sb.String(), "urihdrs-caps", false))
+			body := sb.String()
+			if r.P(25) {
+				h := g.paramListText("&", false) + r.Pick("", "&", "=", "=\"q")
+				if len(h) > 0 {
+					body = fmt.Sprintf(" | B %s | P %d 0 %d | R", hx(h), 1+r.N(len(h)), f0) + body
+				}
+			}
+			g.add(capCase("C13", []string{"urihdrs 0", "urihdrs 1", "urihdrs 2", "urihdrs 4", "urihdrs 12"}, body, "urihdrs-caps", false))
 		}
 	}
 }
